@@ -12,6 +12,7 @@ mod refs;
 mod sched;
 mod tiktoken_data;
 mod vocab;
+mod watchdog;
 
 use common::{Ctx, Tier};
 
@@ -45,10 +46,11 @@ fn main() {
         Some("thorough") => Tier::Thorough,
         _ => Tier::Quick,
     };
-    let ctx = Ctx::new(&args[1], tier);
+    let ctx: &'static Ctx = Box::leak(Box::new(Ctx::new(&args[1], tier)));
+    watchdog::start(ctx);
     let threads = std::env::var("VERIF_THREADS").ok().and_then(|s| s.parse().ok()).unwrap_or(16usize);
     rayon::ThreadPoolBuilder::new().num_threads(threads).stack_size(64 << 20).build_global().unwrap();
-    let cov = match props::dispatch(&ctx) {
+    let cov = match props::dispatch(ctx) {
         Some(c) => c,
         None => {
             eprintln!("unknown property {}", args[1]);
